@@ -4,3 +4,4 @@ Require Import String List Bool.
 From X86 Require Import Gen.AsmTable_gen Machine.AsmPins.
 Lemma pins_C18_ok : pins_C18 = true. Proof. vm_compute. reflexivity. Qed.
 Lemma pins_C18_exact_ok : pins_C18_exact = true. Proof. vm_compute. reflexivity. Qed.
+Lemma pins_C18_shapes_ok : pins_C18_shapes = true. Proof. vm_compute. reflexivity. Qed.
